@@ -12,6 +12,10 @@ Oracles (see vlib/c09ref.py for the reference decoding semantics):
   T  transparency : bytes read == reference decode of the same (possibly mutated) coded bytes; a stream the
                     reference cannot decode ends in a payload error, what was delivered before is a prefix of
                     what the reference could decode, and there is no clean EOF
+                    a transfer cut short at any byte offset of the framed body (chunk data, chunk-size line, between
+                    chunks, last-chunk, trailers, short Content-Length) ends in a payload error, never in a clean EOF
+                    (profile rules: P-MEMBER-FLOOD - one decoder call over more than 1024 members may be rejected;
+                    P-LINE-TOO-LONG - a line reader gives up on a line longer than its limit)
   P  progress     : the consumer finishes within a budget of loop iterations and consumer operations linear in the
                     body size; quiescence with a blocked consumer is classified (transport paused with undelivered
                     bytes / parser holding pending input / other)
@@ -41,14 +45,15 @@ TECHNIQUE = (
     "receive paths on a back-pressured in-memory transport under virtual time"
 )
 LEVEL_TEXT = (
-    "Exploration: generated coded bodies (5 codings + identity; random/text/bomb/multi-member/empty-member shapes; "
-    "truncations, bit flips, trailing bytes, dropped connections) x framings x segmentations x consumer schedules x "
-    "read-buffer limits are pushed through the real ClientSession and web.Application receive paths; an independent "
+    "Exploration: generated coded bodies (5 codings + identity; random/text/bomb/multi-member/empty-member shapes, "
+    "member floods of up to 5000 members spread over the decoder feeds; truncations, bit flips, trailing bytes, dropped "
+    "connections) x framings x segmentations x consumer schedules (every read API of the stream: read/readany/"
+    "readchunk/readexactly/readline/readuntil/iterators, client and server side) x read-buffer limits are pushed through the real ClientSession and web.Application receive paths; an independent "
     "reference decode, a resident-bytes invariant evaluated at every loop iteration and a stuck-state detector decide "
     "each run. Says: held on these executions; nothing about unexplored payloads or schedules."
 )
 RULE = (
-    "case = (side, coding, plaintext shape/size, member split, mutation, framing + chunk plan, wire segmentation, "
+    "case = (side, coding, plaintext shape/size, member split | member flood (count, size cycle), mutation, framing + chunk plan (bytes | whole members per chunk), wire segmentation, "
     "read-buffer limit, consumer script | handler kind + client_max_size); non-trivial = the message head was accepted "
     "and the consumer issued at least one read against a non-empty coded body; distinct = distinct canonical case"
 )
@@ -671,7 +676,7 @@ def run_client(case: dict, pre=None):
     res = {
         "spin": _FeedGuard.tripped,
         "failed_feed": _FeedGuard.failed,
-        "body": body if members >= FLOOD_CAP else None,
+        "body": body if members + 2 > FLOOD_CAP else None,
         "run": st,
         "consumed": c,
         "mon": mon,
@@ -857,7 +862,7 @@ def run_server(case: dict):
     res = {
         "spin": _FeedGuard.tripped,
         "failed_feed": _FeedGuard.failed,
-        "body": body if members >= FLOOD_CAP else None,
+        "body": body if members + 2 > FLOOD_CAP else None,
         "run": st,
         "consumed": c,
         "mon": mon,
@@ -1025,10 +1030,15 @@ def judge_transparency(case, res, rec, side):
     if status in ("ok", "empty"):
         if status == "empty":
             rec.count("profile:P-EMPTY-BODY")  # tests/test_http_parser.py::TestDeflateBuffer::test_empty_body, test_compression_empty
+        if is_err and res.get("reader_type") == "EmptyStreamReader" and c.line_op is not None and et not in perr:
+            # classifier: the body was the shared empty payload object and the operation in flight was a line read
+            v.append((f"{lvl}:line-read-on-empty-payload-raises:{et}", f"readline()/readuntil() on an empty body ({res['reader_type']}): {c.exc_repr}"))
+            return v
         if is_err:
             walked = flood_call_members(case, res) if et in perr else None
-            if walked is not None and walked >= FLOOD_CAP:
-                # (>=, not >: the count of a call starts with the member the previous call ended in)
+            if walked is not None and walked + 2 > FLOOD_CAP:
+                # (+2: a call's own count may start with the member the previous call ended in, and the member at
+                # which the output budget runs out is counted before the call stops)
                 rec.count("profile:P-MEMBER-FLOOD")
                 return v
             more = "" if walked is None else f"; the decoder call that failed could have walked at most {walked} members (cap {FLOOD_CAP})"
@@ -1338,7 +1348,8 @@ def gen_line_consumer(rng: random.Random, decoded_n: int, limit: int) -> dict:
         else:
             ops.append(["readexactly", rng.choice((1, 10, 100) if decoded_n <= 4096 else (100, 5000))])
         if rng.random() < 0.4:
-            ops.append(["sleep", rng.choice((0, 0.001, 0.5))])
+            # (virtual time: one operation per line, the run is cut after an hour)
+            ops.append(["sleep", rng.choice((0, 0.001, 0.5) if decoded_n <= 4096 else (0, 0.001, 0.01))])
     if not any(op[0] in ("readline", "readuntil") for op in ops):
         ops.insert(0, ["readline"])
     return {"ops": ops}
@@ -1474,7 +1485,7 @@ def add_mutation(rng: random.Random, case: dict, kind: str) -> dict | None:
         # read-until-close: dropping the connection *is* a truncation of the coded stream
         c["mut"] = {"kind": "trunc", "at": rng.randrange(0, n)}
     elif kind == "wirecut":
-        _, framed, _ = R.frame_body(body0, case["framing"], case.get("chunks"))
+        _, framed, _ = R.frame_body(body0, case["framing"], resolve_chunk_plan(case))
         if len(framed) < 2:
             return None
         c["mut"] = {"kind": "wirecut", "at": rng.randrange(0, len(framed) - 1)}
@@ -1538,6 +1549,10 @@ def gen_flood_case(rng: random.Random, side: str) -> dict:
         consumer = gen_line_consumer(rng, max(n, 4097), limit)
     else:
         consumer = gen_consumer(rng, max(n, 4097), limit)
+    if limit < 256 and n > 4096 and "ops" in consumer:
+        # tiny members and a tiny buffer: readany()/readchunk() hand over a byte or two per call, half a second of
+        # virtual sleep per call would run into the one-hour cut of the server run (harness cost, not a verdict)
+        consumer = {"ops": [["sleep", 0.001] if op[0] == "sleep" and op[1] > 0.01 else op for op in consumer["ops"]]}
     if side == "client":
         case["consumer"] = consumer
     else:
@@ -1622,10 +1637,14 @@ def shards(tier, seed):
         add("bombs", codecs=["br", "zstd"], small=100_000, big=10_000_000, limits=[256, 4096])
         add("bombs", codecs=["deflate-raw"], small=100_000, big=10_000_000, limits=[4096], tracemalloc=["gzip", "deflate", "br", "zstd"])
         add("server-bombs", big=10_000_000)
+        for _ in range(3):
+            add("floods", n=250)
         for _ in range(2):
-            add("floods", n=400)
-        add("lines", n=1000)
+            add("lines", n=500)
         add("bomb-consumers", codecs=["gzip", "deflate", "deflate-raw", "br", "zstd"], big=10_000_000, limits=[256, 4096], sides=["client", "server"])
+        add("cut-sweep", codecs=["identity", "gzip"], sides=["client", "server"])
+        add("cut-sweep", codecs=["deflate", "zstd"], sides=["client", "server"])
+        add("cut-sweep", codecs=["deflate-raw", "br"], sides=["client", "server"])
     else:
         for _ in range(24):
             add("client-valid", n=2600)
@@ -1645,6 +1664,9 @@ def shards(tier, seed):
             add("lines", n=6000)
         for codec in ("gzip", "deflate", "deflate-raw", "br", "zstd"):
             add("bomb-consumers", codecs=[codec], big=100_000_000, limits=[256, 4096, 65536], sides=["client", "server"])
+        for codec in ("identity", "gzip", "deflate", "deflate-raw", "br", "zstd"):
+            for side in ("client", "server"):
+                add("cut-sweep", codecs=[codec], sides=[side])
     return out
 
 
@@ -1657,6 +1679,9 @@ EMPTY_CONSUMERS = (
     {"ops": [["readany"]]},
     {"ops": [["readchunk"], ["sleep", 0.01]]},
     {"ops": [["readexactly", 1]]},
+    {"ops": [["readline"]]},
+    {"ops": [["readuntil", 10]]},
+    {"mode": "lines", "sleep": 0},
 )
 
 
@@ -1790,6 +1815,8 @@ def run_shard(spec, rec):
             _sample(rec, case, res, v, 41)
     elif kind == "bomb-consumers":
         run_bomb_consumers(spec, rec, rng)
+    elif kind == "cut-sweep":
+        run_cut_sweep(spec, rec, rng)
     elif kind == "bombs":
         run_bombs(spec, rec, rng)
     elif kind == "server-bombs":
@@ -1864,6 +1891,83 @@ def run_bombs(spec, rec, rng):
                     )
     for codec in spec.get("tracemalloc", []):
         tracemalloc_check(codec, min(spec["big"], 10_000_000), rec)
+
+
+CUT_CONSUMERS = (
+    {"mode": "readall"},
+    {"mode": "iter_any", "sleep": 0},
+    {"mode": "iter_chunked", "n": 7, "sleep": 0},
+    {"mode": "iter_chunks", "sleep": 0},
+    {"mode": "lines", "sleep": 0},
+    {"ops": [["read", 50]]},
+    {"ops": [["readany"], ["sleep", 0.001]]},
+    {"ops": [["readchunk"]]},
+    {"ops": [["readexactly", 5]]},
+    {"ops": [["readline", 100000]]},
+    {"ops": [["readuntil", 32, 100000]]},
+)
+CUT_SEGS = ({"mode": "whole", "maxseg": MAXSEG}, {"mode": "byte"}, {"mode": "random", "seed": 11, "maxseg": MAXSEG}, {"mode": "whole", "maxseg": 7})
+
+
+def run_cut_sweep(spec, rec, rng):
+    """The transfer ends at EVERY byte offset of the framed body: inside chunk data, inside a chunk-size line, exactly
+    between two chunks, before / inside the last-chunk and the trailer section; a Content-Length body cut short; a
+    read-until-close body, where the end of the connection is the legitimate end (exact prefix, judged as a truncation
+    of the coded stream).  Identity and every coding, client and server, every consumer API.  Oracle T: a message cut
+    short ends in a payload error for the application, never in a clean end-of-body.
+    quick: one consumer / segmentation per offset (rotating); thorough: larger bodies and every consumer per offset."""
+    dense = spec["tier"] != "quick"
+    for codec in spec["codecs"]:
+        for side in spec["sides"]:
+            plans = [
+                ("chunked", {"kind": "fixed", "n": rng.choice((1, 3, 16))}),
+                ("chunked", {"kind": "fixed", "n": rng.choice((40, 64)), "trailer": True}),
+                ("chunked", {"kind": "random", "seed": rng.randrange(1 << 30), "max": rng.choice((16, 300)), "trailer": rng.random() < 0.5}),
+                ("cl", None),
+            ]
+            if side == "client":
+                plans.append(("close", None))
+            for framing, plan in plans:
+                n = rng.choice((150, 400, 1500) if dense else (60, 150, 300))
+                if plan and plan["kind"] == "fixed" and plan["n"] <= 3:
+                    n = min(n, 150)
+                base = {
+                    "side": side,
+                    "codec": codec,
+                    "plain": {"kind": rng.choice(("text", "text", "random")), "n": n, "seed": rng.randrange(1 << 30)},
+                    "framing": framing,
+                    "limit": rng.choice((16, 256, 65536)),
+                    "cseed": 1,
+                }
+                if plan:
+                    base["chunks"] = plan
+                if side == "server":
+                    base["cms"] = 1 << 20
+                if codec in R.MULTI and rng.random() < 0.3:
+                    k = rng.randint(2, 5)
+                    cuts = sorted(rng.randint(0, n) for _ in range(k - 1))
+                    base["members"] = [b - a for a, b in zip([0] + cuts, cuts + [n])]
+                body0, _ = R.build_body(base)
+                if framing == "close":
+                    total, mk = len(body0), "trunc"
+                else:
+                    total, mk = len(R.frame_body(body0, framing, plan)[1]), "wirecut"
+                shift = rng.randrange(len(CUT_CONSUMERS))
+                for at in range(total):
+                    menu = CUT_CONSUMERS if dense else (CUT_CONSUMERS[(at + shift) % len(CUT_CONSUMERS)],)
+                    for ci, consumer in enumerate(menu):
+                        case = dict(base)
+                        case["mut"] = {"kind": mk, "at": at}
+                        case["seg"] = CUT_SEGS[(at + ci + shift) % len(CUT_SEGS)]
+                        if side == "client":
+                            case["consumer"] = consumer
+                        elif (at + ci) % 5 == 4:
+                            case["handler"] = "read"
+                        else:
+                            case["handler"] = "iter"
+                            case["consumer"] = consumer
+                        execute(case, rec, f"cut-sweep:{framing}")
+                rec.count(f"enumerated-subspace:transfer-cut-at-every-byte-offset:{side}:{framing}:{'identity' if codec == 'identity' else 'coded'}")
 
 
 def bomb_consumer_menu(limit: int):
